@@ -640,3 +640,163 @@ func (p *Prog) enclosingReturnStmt(fn *ssa.Function, pos token.Pos) *ast.ReturnS
 	})
 	return found
 }
+
+// ---- path enumeration with per-path phi resolution (K2, second stage) ----
+
+// PathFact is a branch fact collected along a path: the canonical condition
+// (phis resolved to the operand of the edge taken) and its truth value.
+type PathFact struct {
+	Cond string
+	Val  bool
+	v    ssa.Value // the (phi-resolved) condition value; identity decides contradictions
+}
+
+type pathEnum struct {
+	p      *Prog
+	fn     *ssa.Function
+	target IM
+	visit  func(facts []PathFact, trace []*ssa.BasicBlock, at ssa.Instruction)
+	cap    int
+	n      int
+	over   bool
+}
+
+// EnumPaths enumerates the feasible paths from entry to instructions matching
+// target (each block at most twice per path). Along a path a phi denotes the
+// operand of the edge taken and an If whose condition resolves to a constant
+// can only be left by the matching edge. Returns the number of paths and
+// whether the cap was exceeded.
+func (p *Prog) EnumPaths(fn *ssa.Function, target IM, cap int, visit func(facts []PathFact, trace []*ssa.BasicBlock, at ssa.Instruction)) (int, bool) {
+	pe := &pathEnum{p: p, fn: fn, target: target, visit: visit, cap: cap}
+	if len(fn.Blocks) == 0 {
+		return 0, false
+	}
+	pe.walk(fn.Blocks[0], nil, map[*ssa.Phi]ssa.Value{}, nil, nil, map[*ssa.BasicBlock]int{})
+	return pe.n, pe.over
+}
+
+func resolveEnv(env map[*ssa.Phi]ssa.Value, v ssa.Value) ssa.Value {
+	for i := 0; i < 16; i++ {
+		ph, ok := v.(*ssa.Phi)
+		if !ok {
+			return v
+		}
+		nv, ok := env[ph]
+		if !ok {
+			return v
+		}
+		v = nv
+	}
+	return v
+}
+
+func (pe *pathEnum) walk(b *ssa.BasicBlock, pred *ssa.BasicBlock, env map[*ssa.Phi]ssa.Value, facts []PathFact, trace []*ssa.BasicBlock, seen map[*ssa.BasicBlock]int) {
+	if pe.over {
+		return
+	}
+	if seen[b] >= 2 {
+		return
+	}
+	seen[b]++
+	defer func() { seen[b]-- }()
+	trace = append(trace, b)
+	// resolve phis (parallel assignment)
+	if pred != nil {
+		idx := -1
+		for i, pb := range b.Preds {
+			if pb == pred {
+				idx = i
+			}
+		}
+		var upd []struct {
+			ph *ssa.Phi
+			v  ssa.Value
+		}
+		for _, in := range b.Instrs {
+			ph, ok := in.(*ssa.Phi)
+			if !ok {
+				break
+			}
+			if idx >= 0 && idx < len(ph.Edges) {
+				upd = append(upd, struct {
+					ph *ssa.Phi
+					v  ssa.Value
+				}{ph, resolveEnv(env, ph.Edges[idx])})
+			}
+		}
+		if len(upd) > 0 {
+			ne := make(map[*ssa.Phi]ssa.Value, len(env)+len(upd))
+			for k, v := range env {
+				ne[k] = v
+			}
+			for _, u := range upd {
+				ne[u.ph] = u.v
+			}
+			env = ne
+		}
+	}
+	for _, in := range b.Instrs {
+		if pe.target(in) {
+			pe.n++
+			if pe.n > pe.cap {
+				pe.over = true
+				return
+			}
+			pe.visit(facts, trace, in)
+			return
+		}
+	}
+	if len(b.Instrs) == 0 {
+		return
+	}
+	switch last := b.Instrs[len(b.Instrs)-1].(type) {
+	case *ssa.If:
+		cond := last.Cond
+		neg := false
+		for {
+			cond = resolveEnv(env, cond)
+			u, ok := cond.(*ssa.UnOp)
+			if !ok || u.Op != token.NOT {
+				break
+			}
+			cond = u.X
+			neg = !neg
+		}
+		if c, ok := cond.(*ssa.Const); ok && c.Value != nil {
+			t := c.Value.ExactString() == "true"
+			if neg {
+				t = !t
+			}
+			if t {
+				pe.walk(b.Succs[0], b, env, facts, trace, seen)
+			} else {
+				pe.walk(b.Succs[1], b, env, facts, trace, seen)
+			}
+			return
+		}
+		r := &renderer{p: pe.p, active: map[ssa.Value]bool{}, memo: map[ssa.Value]string{}, env: env}
+		canon, cneg := r.cond(cond)
+		if neg {
+			cneg = !cneg
+		}
+		for i, sb := range b.Succs {
+			val := (i == 0) != cneg
+			contra := false
+			for _, f := range facts {
+				if f.v == cond && f.Val != val {
+					contra = true // the same SSA value cannot be both true and false on one path
+				}
+			}
+			if contra {
+				continue // contradicts an earlier fact on the same operands
+			}
+			nf := append(append([]PathFact{}, facts...), PathFact{canon, val, cond})
+			pe.walk(sb, b, env, nf, trace, seen)
+		}
+	default:
+		for _, sb := range b.Succs {
+			pe.walk(sb, b, env, facts, trace, seen)
+		}
+	}
+}
+
